@@ -17,7 +17,8 @@
 (*        filter calls) - the policy decision C12 is about.                *)
 (*   wr   bytes of an in-memory-only entry reaching the device: C12; when  *)
 (*        the flusher writes what it was given is mechanism (drift).       *)
-(*   mem  an on-disk-advised entry resident in memory: C12; else drift.    *)
+(*   mem  an on-disk-advised entry resident right after its insert: C12;   *)
+(*        else drift.                                                      *)
 (* After the first difference the rest of the run is not judged.           *)
 (***************************************************************************)
 EXTENDS Hybrid, Json, IOUtils, TLCExt
@@ -67,18 +68,23 @@ Bad(op, o, T, exp) ==
                     /\ KeyLoc[k] # "inmem" /\ ~Collides(k) THEN {<<"C15", "not_persisted_by_close">>}
             ELSE {<<"drift", "lookup">>}
         enqTags == IF SameBag(o.enq, T.enq) THEN {} ELSE {<<"C12", "disk_offers">>}
+        \* a lookup of a disk-only key that hits offers nothing to the disk tier (nothing is populated, so
+        \* nothing can be evicted by it): judged on the observation alone
+        hitTags == IF op.a = "get" /\ r # 0 /\ r < 1000000 /\ KeyLoc[k] = "ondisk" /\ o.enq # <<>>
+                   THEN {<<"C12", "hit_reoffered_to_disk">>} ELSE {}
         wrTags ==
             IF \E i \in DOMAIN o.wr : known(o.wr[i]) /\ KeyLoc[T.vkey[o.wr[i]]] = "inmem"
             THEN {<<"C12", "inmem_entry_on_device">>}
             ELSE IF SameBag(o.wr, T.wr) THEN {} ELSE {<<"drift", "device_writes">>}
         memExp == [i \in 1 .. Len(KeySeq) |-> IF InMem(T, KeySeq[i]) THEN 1 ELSE 0]
         memTags ==
-            IF \E i \in 1 .. Len(KeySeq) : o.mem[i] = 1 /\ KeyLoc[KeySeq[i]] = "ondisk"
+            \* the advice governs the insert (a later lookup may populate memory from disk)
+            IF op.a = "ins" /\ KeyLoc[op.k] = "ondisk" /\ \E i \in 1 .. Len(KeySeq) : KeySeq[i] = op.k /\ o.mem[i] = 1
             THEN {<<"C12", "ondisk_entry_retained_in_memory">>}
             ELSE IF o.mem = memExp THEN {} ELSE {<<"drift", "residency">>}
         dskExp == [i \in 1 .. Len(KeySeq) |-> IF T.index[Hash[KeySeq[i]]].kind = "addr" THEN 1 ELSE 0]
         dskTags == IF o.dsk = dskExp THEN {} ELSE {<<"drift", "disk_index">>}
-    IN resTags \cup enqTags \cup wrTags \cup memTags \cup dskTags
+    IN resTags \cup enqTags \cup hitTags \cup wrTags \cup memTags \cup dskTags
 
 TraceInit == S = S0 /\ out = [op |-> [a |-> "none"], res |-> 0] /\ l = 1 /\ bad = {} /\ dead = FALSE
 
